@@ -580,6 +580,11 @@ def check_fits(chk, r, tier):
         reads, counts = G.gen_reads(r, n_alleles, r.randint(4, 10), haps=g, gap=0.2, style="encoded")
         haps = np.unique(np.array([G.gen_haplotype(r, n_alleles) for _ in range(5)] + g, dtype=np.int8), axis=0)
         seed = r.randint(0, 2 ** 31 - 1)
+        # boundary values of the seed are legal seeds too: 0 (falsy) and the largest 32-bit value
+        if (i // 4) % 3 == 0:
+            seed = 0
+        elif (i // 4) % 3 == 1 and i % 8 < 4:
+            seed = 2 ** 32 - 2
         k1, k2 = r.randint(1, 50), r.randint(1, 50)
         other_seed = r.randint(0, 2 ** 31 - 1)
         perturb = r.sample(["numpy-draws", "numba-draws", "reseed-both", "unrelated-fit", "unrelated-fit-other-kind"],
@@ -767,6 +772,29 @@ def check_cli(chk, drv, r, tier, work):
             sub_jobs.append((f"assemble cores={cores}", ds.assemble_argv(*common, "--cores", str(cores)),
                              {"base": base, "hdr": hdr0, "ids": ids, "cores": cores, "tag": {**tag, "prog": "assemble"},
                               "n_samples": n_samples}))
+
+        # ---------------- boundary seed: --mcmc-seed 0 is a seed like any other
+        if d == 0 and tier != "warm":
+            z = [*MCMC, "--mcmc-seed", "0"]
+            zh0, zr0 = run(ds.assemble_argv(*z), "assemble seed 0")
+            zbase = by_id(zr0)
+            perturb_process(r)
+            zh1, zr1 = run(ds.assemble_argv(*z), "assemble seed 0 repeat")
+            chk.count("cli:assemble-seed0")
+            chk.case({**tag, "prog": "assemble", "what": "seed-0 repeat"}, True)
+            if zr1 != zr0:
+                compare_records(chk, "assemble --mcmc-seed 0 repeated in the same process", zbase, zr1, "C08/repeat/record",
+                                {**tag, "mcmc_seed": 0}, ids)
+            zh2, zr2 = run(ds.assemble_argv(*z, "--cores", "2"), "assemble seed 0 cores 2")
+            compare_records(chk, "assemble --mcmc-seed 0 --cores 2 (forked in-process)", zbase, zr2, "C08/cores/multiset",
+                            {**tag, "mcmc_seed": 0, "cores": 2}, ids)
+            sel0 = list(reversed(ds.loci))[: max(2, n_loci - 2)]
+            bed0 = synth.write_bed(os.path.join(work, f"ds{d}.seed0.bed"), sel0)
+            argv0 = ds.assemble_argv(*z)
+            argv0[argv0.index("--targets") + 1] = bed0
+            zh3, zr3 = run(argv0, "assemble seed 0 reversed subset")
+            compare_records(chk, "assemble --mcmc-seed 0 on a reversed subset of the targets", zbase, zr3, "C08/order/record",
+                            {**tag, "mcmc_seed": 0}, [l.name for l in sel0])
 
         # ---------------- call / call-exact / call-pedigree on the assembled haplotypes
         hv_txt = synth.write_text(os.path.join(work, f"ds{d}.haps.vcf"),
